@@ -19,7 +19,7 @@ PROP = {
 # end-to-end (connection-level) pass: real hsmsss / secs1 connections over net.Pipe under random
 # Open/Close/peer histories; a Go-side monitor checks the recorded log (harness/cmd/c05e2e).
 
-E2E_N = {"quick": 616, "thorough": 12000}
+E2E_N = {"quick": 624, "thorough": 12000}
 
 
 def custom(run, tier):
@@ -56,6 +56,10 @@ def custom(run, tier):
                hist.get("t7:selected", 0) > 0 and hist.get("t7:expired", 0) > 0, str(hist))
     run.oblige("e2e: the coalesce warning was produced under a stalled handler (%d runs)" % hist.get("coal:warning-logged", 0),
                hist.get("coal:warning-logged", 0) > 0, str(hist))
+    run.oblige("e2e: abandoned-straggler history reached its release point with both dropping causes (linktest T6 %d, peer close %d, released %d)"
+               % (hist.get("straggler:linktestT6", 0), hist.get("straggler:peerClose", 0), hist.get("straggler:released-after-gen2-selected", 0)),
+               hist.get("straggler:linktestT6", 0) > 0 and hist.get("straggler:peerClose", 0) > 0
+               and hist.get("straggler:released-after-gen2-selected", 0) * 2 >= hist.get("class:straggler", 0) > 0, str(hist))
     run.oblige("e2e: no goroutine of the rig or of the library outlives the last Close", hist.get("goroutines-left", 0) == 0,
                "\n".join(summary.get("notes") or []))
     run.trusted.append("e2e rig harness/cmd/c05e2e: scripted raw-frame HSMS peer (and an idle SECS-I line) over net.Pipe through the public "
